@@ -932,6 +932,24 @@ example : (eucTwDecodeFacts.all fun f => eucTwDecode demoCns (toBytes f.1) == .o
 example : eucTwCanonical demoCns demoInv 4 [0x8E, 0xA2, 0xA4, 0xA1] = true ∧ eucTwCanonical demoCns demoInv 4 [0x8E, 0xA1, 0xA4, 0xA1] = false ∧
     eucTwDecode demoCns [0x41, 0xA4] = .error (1, true) ∧ eucTwDecode demoCns [0x41, 0xFF, 0x42] = .error (1, false) := by decide +kernel
 
+/-- the real tables: `A4 A1` is U+FF10; the four-byte form of plane 1 and `8E A3 A1 B8` are the redundant units; errors carry the
+    offset and whether the unit is merely incomplete; plane bytes above `B0` and planes iconv has no table for are illegal -/
+example : eucTwDecodeReal [0xA4, 0xA1, 0x41] = .ok [0xFF10, 0x41] ∧ eucTwDecodeReal [0x41, 0xA4] = .error (1, true) ∧
+    eucTwDecodeReal [0x8E, 0xA8, 0xA1, 0xA1] = .error (0, false) ∧ eucTwDecodeReal [0x41, 0x8E, 0xB1, 0xA1, 0xA1] = .error (1, false) := by
+  decide +kernel
+example : eucTwNoRedundant cnsReal 4 [0x8E, 0xA2, 0xA4, 0xA1] = true ∧ eucTwNoRedundant cnsReal 4 [0x8E, 0xA1, 0xA4, 0xA1] = false ∧
+    eucTwNoRedundant cnsReal 4 [0x8E, 0xA3, 0xA1, 0xB8] = false ∧ eucTwNoRedundant cnsReal 4 [0x8E, 0xA3, 0xA1, 0xB9] = true := by decide +kernel
+example : eucTwEncodeReal [0x5344, 0x20AC] = .error 1 ∧ eucTwEncodeReal [0x5344, 0x5FE3] = .ok [0xA4, 0xBF, 0x8E, 0xA2, 0xA4, 0xA1] := by
+  decide +kernel
+/-- the tool's EUC-TW decode of `A4 A1 41` against the reference iconv: told 3, 6, 12 bytes (12, 24, 48 allocated) — E2BIG, E2BIG
+    after one character, then both: three rounds are needed and suffice -/
+example : (decodeDl (refDecStep (eucUnitFn cnsReal) [0xA4, 0xA1, 0x41]) [0xA4, 0xA1, 0x41] 3).2 = [⟨12, 3⟩, ⟨24, 6⟩, ⟨48, 12⟩] ∧
+    (decodeDl (refDecStep (eucUnitFn cnsReal) [0xA4, 0xA1, 0x41]) [0xA4, 0xA1, 0x41] 2).1.finished = false := by decide +kernel
+/-- the registry model: punctuation and case do not matter, a dot does; EUC-TW comes from the tool's search function -/
+example : registry (nm "ISO_8859-1:1987") = some (nm "iso8859-1") ∧ registry (nm " Latin 1 ") = some (nm "iso8859-1") ∧
+    registry (nm "euc tw") = some (nm "euc-tw") ∧ registry (nm "utf.8") = none ∧ registry (nm "aliases") = none := by decide +kernel
+example : expectedDrop (some (nm "hz")) = [0x7E] ∧ expectedAdd (some (nm "viscii")) = [0x02, 0x05, 0x06, 0x14, 0x19, 0x1E] := by decide +kernel
+
 /-- an iconv that needs 8 bytes of room for the two characters of `ab` -/
 private def demoStep : Step := fun told =>
   if told < 8 then ⟨none, ⟨.e2big, 0, []⟩, ⟨.ok, 0, []⟩⟩
